@@ -425,8 +425,13 @@ def run_job(job, base: Path):
     # foreign entries: every listed object must be of the queried type
     for name, lst in listing.items():
         bad = [repr(x)[:80] for x in lst if type(x) is not _types()[name]]
+        try:
+            twice = lab.cached_tasks([_types()[name], _types()[name]])       # a type named twice is still one type
+        except BaseException:   # noqa
+            twice = lst
         out.append({'id': f'{job["id"]}-listing-{name}', 'ty': name, 'listing_foreign': len(bad), 'listing_total': len(lst),
-                    'listing_dups': len(lst) - len({(type(x).__qualname__, x.cache_key) for x in lst}), 'foreign_sample': bad[:3]})
+                    'listing_dups': (len(lst) - len({(type(x).__qualname__, x.cache_key) for x in lst}))
+                    + (len(twice) - len({(type(x).__qualname__, x.cache_key) for x in twice})), 'foreign_sample': bad[:3]})
     shutil.rmtree(d, ignore_errors=True)
     return out
 
